@@ -163,6 +163,22 @@ def run(ctx):
     forward_obligations(ctx, u)
     ctx.require_count("R01.6", 7)
 
+    # ---- R01.7
+    ctx.rule("R01.7", "ARG-SLOTS: the argument-value-list constructor fills the rtosc_arg_t array it hands to rtosc_amessage with one "
+                      "element per value-carrying tag - the discipline rtosc_amessage's own argument index follows - checked on "
+                      "every tag sequence of length 1..3")
+    from ..rules import argslots as AS
+    cons = AS.consumer_table(u)
+    ua = ctx.ast("arg-val.c")
+    prods = [p_ for p_ in AS.producers(ua) if p_[0] == "rtosc_avmessage"]
+    ctx.require(len(prods) == 1, "R01.7: the loop of rtosc_avmessage that fills type string and values was not found (%d)" % len(prods))
+    q, fnp, call, tid, vid, lp = prods[0]
+    ptab, names = AS.producer_table(ua, fnp, tid, vid, lp)
+    bad = AS.mismatches(cons, ptab)
+    ctx.ob("R01.7", "rtosc_avmessage", not bad, site=A.where(lp),
+           detail={"rtosc_amessage_consumes_an_element_for": "".join(t for t in AS.TAGS if cons[t]), "sequences": sum(15 ** n for n in (1, 2, 3)), "mismatches": bad[:4]},
+           what="rtosc_avmessage stores argument values in other array elements than rtosc_amessage reads them from: %s" % bad[:2])
+
 
 def pad_obligations(ctx, u, rule, fnames):
     for q in fnames:
